@@ -2,6 +2,7 @@ package props
 
 import (
 	"fmt"
+	"math"
 	"strings"
 	"testing"
 
@@ -243,6 +244,15 @@ func TestC05Enum(t *testing.T) {
 		}
 		for _, v := range vals {
 			ops = append(ops, Op{K: "lrem", B: "b", Key: k, I: i, V: S(v)}, Op{K: "lset", B: "b", Key: k, I: i, V: S(v)})
+		}
+	}
+	// beyond the exhaustive index range: extreme counts and indexes (the exported list type has no validation layer
+	// in front of it, unlike Tx)
+	for _, x := range []int{math.MinInt64, math.MinInt64 + 1, math.MaxInt64, math.MinInt32, math.MaxInt32} {
+		ops = append(ops, Op{K: "lrange", B: "b", Key: k, I: x, J: -1}, Op{K: "lrange", B: "b", Key: k, I: 0, J: x},
+			Op{K: "ltrim", B: "b", Key: k, I: x, J: -1}, Op{K: "ltrim", B: "b", Key: k, I: 0, J: x}, Op{K: "lset", B: "b", Key: k, I: x, V: "a"})
+		for _, v := range vals {
+			ops = append(ops, Op{K: "lrem", B: "b", Key: k, I: x, V: S(v)})
 		}
 	}
 	st.Exhaustive = true
